@@ -1,5 +1,5 @@
 """C01 — stanza codecs lose nothing (engine: codec): scalar helpers, document level with transparent-position probing, injection"""
-import json, os, sys
+import json, os, re, sys
 import vf, codecdrv
 
 WHAT = {
@@ -20,6 +20,7 @@ WHAT = {
 DORMANT_OK = {
     "QXmppMessage.setE2eeFallbackBody": "only consulted by the encrypted send path, which replaces the body; never part of toXml() output",
     "QXmppMixIq.setNodes": "deprecated alias kept for source compatibility; superseded by setSubscriptions()",
+    "QXmppIq.setExtendedAddresses": "XEP-0033 addressing is for message and presence; an IQ keeps a received <addresses/> as an unknown extension (round trip at document level is covered by layers 2/3)",
 }
 
 
@@ -40,13 +41,42 @@ def ns_map():
     return {t: c.most_common(1)[0][0] for t, c in ns.items()}
 
 
+def objs_map():
+    """"tag|namespace" -> up to 6 distinct elements of the corpus (values for the object-valued fields)"""
+    import collections
+    from xml.dom import minidom
+    out = collections.defaultdict(list)
+
+    def walk(el):
+        if el.nodeType != 1:
+            return
+        k = "%s|%s" % (el.localName, el.namespaceURI or "")
+        x = el.toxml()
+        if len(out[k]) < 6 and x not in out[k] and len(x) < 3000:
+            # a detached element must carry its own namespace declaration
+            if el.namespaceURI and not el.hasAttribute("xmlns") and not el.prefix:
+                el = el.cloneNode(True)
+                el.setAttribute("xmlns", el.namespaceURI or "")
+                x = el.toxml()
+            out[k].append(x)
+        for c in el.childNodes:
+            walk(c)
+    for l in open(codecdrv.SEEDS):
+        try:
+            walk(minidom.parseString(json.loads(l)["xml"].encode("utf8")).documentElement)
+        except Exception:
+            continue
+    out["unknown|urn:example:unknown"] = ["<unknown xmlns='urn:example:unknown' a='1'><child>t&amp;&lt;x</child></unknown>", "<other xmlns='urn:example:other'/>"]
+    return {k: v for k, v in out.items()}
+
+
 def run_fields(binary, seed, nsm):
     """layer 1: setter-built objects. Restarts the harness behind a field that kills it."""
     import subprocess
     skip, recs, crashes = 0, [], []
     for _ in range(60):
         try:
-            p = subprocess.run([binary], input=json.dumps({"n": 1, "seed": seed, "ns": nsm, "skip": skip}) + "\n", capture_output=True, text=True, env=vf.env_for(), timeout=1800)
+            p = subprocess.run([binary], input=json.dumps({"n": 1, "seed": seed, "ns": nsm, "objs": OBJS, "skip": skip}) + "\n", capture_output=True, text=True, env=vf.env_for(), timeout=1800)
         except subprocess.TimeoutExpired:
             crashes.append({"field": "?", "sig": "timeout", "stderr": ""})
             break
@@ -69,9 +99,16 @@ def run_fields(binary, seed, nsm):
     return recs, crashes
 
 
+OBJS = {}
+
+
 def fields_layer(V, tier):
+    global OBJS
     fb = vf.build_harness("fields")
     nsm = ns_map()
+    need = set(re.findall(r'"([A-Za-z-]+\|[^"]*)"\);', open(os.path.join(vf.VERIF, "harness", "fields_hand.h")).read()))
+    allobjs = objs_map()
+    OBJS = {k: allobjs.get(k, []) for k in need}
     seeds = [vf.SEED * 1000 + i for i in range(1 if tier == "quick" else 48)]
     out = vf.pmap(lambda sd: run_fields(fb, sd, nsm), seeds)
     st = {"fields": set(), "live_fields": set(), "live_states": 0, "values": 0, "excluded": {}, "dormant": set()}
